@@ -238,4 +238,50 @@ theorem runDot_any_order {P : Nat} (S es : List Ev) (h : WFDot P S) (hp : es.Per
   have hperm := CF.out_perm P (S.map liftEv) (es.map liftEv) (hp.map liftEv) (wf_of_WFDot h)
   exact (hperm.map _).trans (CF_out_perm_spec h)
 
+/-- "every port has EXACTLY ONE received token whose tag is a prefix of `κ`" -/
+def specCompleteOne (P : Nat) (S : List Ev) (κ : Tag) : Bool :=
+  (List.range P).all (fun q => (S.filter (fun e => e.1 = q ∧ e.2.tag <+: κ)).length = 1)
+
+theorem length_le_one_of_all_eq {α : Type} {l : List α} (hnd : l.Nodup) (h : ∀ a ∈ l, ∀ b ∈ l, a = b) :
+    l.length ≤ 1 := by
+  match l, hnd, h with
+  | [], _, _ => simp
+  | [_], _, _ => simp
+  | a :: b :: r, hnd, h =>
+    have := h a (by simp) b (by simp)
+    subst this
+    simp at hnd
+
+/-- under well-formedness "some" is "exactly one" -/
+theorem specComplete_eq_one {P : Nat} {S : List Ev} (h : WFDot P S) (κ : Tag) :
+    specComplete P S κ = specCompleteOne P S κ := by
+  unfold specComplete specCompleteOne
+  apply List.all_congr rfl
+  intro q
+  have hle : (S.filter (fun e => e.1 = q ∧ e.2.tag <+: κ)).length ≤ 1 := by
+    apply length_le_one_of_all_eq (h.1.filter _)
+    intro a ha b hb
+    simp only [List.mem_filter, decide_eq_true_eq] at ha hb
+    rcases List.prefix_or_prefix_of_prefix ha.2.2 hb.2.2 with hp | hp
+    · exact h.2.2.2 a ha.1 b hb.1 (ha.2.1.trans hb.2.1.symm) hp
+    · exact (h.2.2.2 b hb.1 a ha.1 (hb.2.1.trans ha.2.1.symm) hp).symm
+  by_cases hany : S.any (fun e => decide (e.1 = q ∧ e.2.tag <+: κ)) = true
+  · rw [hany]
+    have : 0 < (S.filter (fun e => e.1 = q ∧ e.2.tag <+: κ)).length := by
+      rw [List.any_eq_true] at hany
+      obtain ⟨e, he, hpe⟩ := hany
+      exact List.length_pos_of_mem (List.mem_filter.mpr ⟨he, hpe⟩)
+    symm
+    simp only [decide_eq_true_eq]
+    omega
+  · have hany' : S.any (fun e => decide (e.1 = q ∧ e.2.tag <+: κ)) = false := by simpa using hany
+    rw [hany']
+    have : (S.filter (fun e => e.1 = q ∧ e.2.tag <+: κ)) = [] := by
+      rw [List.any_eq_false] at hany'
+      apply List.filter_eq_nil_iff.mpr
+      intro e he
+      exact hany' e he
+    rw [this]
+    simp
+
 end SFV.Comb
